@@ -14,12 +14,12 @@ func initBreakExpressionNode() {
 		"#init",
 		func(_ *vm.Thread, args []value.Value) (value.Value, value.Value) {
 			var argLabel ast.IdentifierNode
-			if !args[1].IsUndefined() {
+			if !args[1].IsUndefined() && !args[1].IsNil() {
 				argLabel = args[1].MustReference().(ast.IdentifierNode)
 			}
 
 			var argValue ast.ExpressionNode
-			if !args[2].IsUndefined() {
+			if !args[2].IsUndefined() && !args[2].IsNil() {
 				argValue = args[2].MustReference().(ast.ExpressionNode)
 			}
 
